@@ -31,7 +31,7 @@ RECIPES = {
         level="model_checking",
         monitors={"C01"},
         mc=[MC_QM],
-        runs=[dict(cmd="run", gen="restarts:120,gc-heavy:20,big:8,many-queues:8,names:8", policy="always_flush"),
+        runs=[dict(cmd="run", gen="restarts:120,gc-heavy:20,big:8,many-queues:8,names:8,aim-gc:60,aim-roll:30,aim-block:20,aim-batch:10", policy="always_flush"),
               dict(cmd="run", gen="restarts:30,gc-heavy:6", policy="do_nothing,always_fsync,on_delay_long_flush")],
         rule="state after every Drop+open compared with QueueMap's state before it; non-trivial = restarts executed",
         nontrivial_stat="restarts",
@@ -40,8 +40,8 @@ RECIPES = {
         level="model_checking",
         monitors={"C04"},
         mc=[MC_QM],
-        runs=[dict(cmd="run", gen="idle:60,gc-heavy:20,positions:30", policy="always_flush"),
-              dict(cmd="run", gen="idle:16,gc-heavy:6", policy="always_flush",
+        runs=[dict(cmd="run", gen="idle:60,gc-heavy:20,positions:30,aim-gc:80", policy="always_flush"),
+              dict(cmd="run", gen="idle:16,gc-heavy:6,aim-gc:16", policy="always_flush",
                    opts={"crash": "process", "tears": "aimed", "cont": True, "max-points": "400"})],
         rule="every append result above the largest position ever assigned in the incarnation; next above it in every "
              "state, after every restart and every crash recovery; non-trivial = appends executed",
@@ -73,7 +73,7 @@ RECIPES = {
         level="model_checking",
         monitors={"C15"},
         mc=[MC_FRAMES, MC_FRAMES_REAL],
-        runs=[dict(cmd="run", gen="boundary:80,gc-heavy:20,big:10,small:30", policy="always_flush"),
+        runs=[dict(cmd="run", gen="boundary:80,gc-heavy:20,big:10,small:30,aim-block:60,aim-gc:20,aim-roll:20", policy="always_flush"),
               dict(cmd="run", gen="boundary:20,gc-heavy:8", policy="do_nothing")],
         rule="every mutating call: reported wal_bytes_written = bytes of its buffered writes = advance of the writer "
              "cursor; 0 iff nothing written; non-trivial = calls that wrote",
@@ -92,7 +92,7 @@ RECIPES = {
         level="model_checking",
         monitors={"C06"},
         mc=[MC_QM],
-        runs=[dict(cmd="run", gen="gc-heavy:40,many-queues:12,big:10,restarts:20", policy="always_flush"),
+        runs=[dict(cmd="run", gen="gc-heavy:40,many-queues:12,big:10,restarts:20,aim-roll:80,aim-gc:40", policy="always_flush"),
               dict(cmd="run", gen="gc-heavy:10", policy="do_nothing,always_fsync")],
         rule="after every truncate / delete / open of crash-free scripts: real readdir is a contiguous run ending at "
              "the writer's file, nothing older than min(oldest attribution, file at call start), disk_used = files * "
@@ -103,7 +103,7 @@ RECIPES = {
         level="fault_enumeration",
         monitors={"C02"},
         mc=[],
-        runs=[dict(cmd="run", gen="small:24,gc-heavy:8,batch:8,big:3,restarts:6", policy="always_flush",
+        runs=[dict(cmd="run", gen="small:24,gc-heavy:8,batch:8,big:3,restarts:6,aim-gc:8,aim-roll:6,aim-batch:4,aim-block:4", policy="always_flush",
                    opts={"crash": "process", "tears": "aimed", "cont": True, "depth2": True, "max-points": "600"},
                    opts_thorough={"crash": "process", "tears": "all", "cont": True, "depth2": True, "max-points": "6000"},
                    thorough_factor=6),
@@ -133,11 +133,11 @@ RECIPES = {
         level="fault_enumeration",
         monitors={"C12"},
         mc=[],
-        runs=[dict(cmd="run", gen="batch:30,big:4", policy="always_flush",
+        runs=[dict(cmd="run", gen="batch:30,big:4,aim-batch:10", policy="always_flush",
                    opts={"crash": "process", "tears": "aimed", "cont": True, "max-points": "800"},
                    opts_thorough={"crash": "process", "tears": "all", "cont": True, "max-points": "8000"},
                    thorough_factor=6),
-              dict(cmd="damage", gen="batch:24,big:4", policy="always_flush",
+              dict(cmd="damage", gen="batch:24,big:4,aim-batch:30", policy="always_flush",
                    opts={"classes": "payload,crc,hdr"},
                    opts_thorough={"classes": "payload,crc,hdr", "thorough": True}, thorough_factor=6)],
         rule="every batch ever appended is recovered entirely, not at all, or as an upper segment, at every crash point "
@@ -148,7 +148,7 @@ RECIPES = {
         level="fault_enumeration",
         monitors={"C08"},
         mc=[],
-        runs=[dict(cmd="damage", gen="small:20,batch:8,gc-heavy:6,big:3,names:3", policy="always_flush",
+        runs=[dict(cmd="damage", gen="small:20,batch:8,gc-heavy:6,big:3,names:3,aim-batch:10", policy="always_flush",
                    opts={"classes": "payload,crc,hdr,noise", "noise": "300"},
                    opts_thorough={"classes": "payload,crc,hdr,noise", "noise": "1500", "thorough": True}, thorough_factor=8),
               dict(cmd="damage", gen="embed:12", policy="always_flush", opts={"classes": "embed,hdr"})],
@@ -162,7 +162,7 @@ RECIPES = {
         level="fault_enumeration",
         monitors={"C09"},
         mc=[],
-        runs=[dict(cmd="damage", gen="small:24,recreate:16,batch:8,gc-heavy:6,big:3", policy="always_flush",
+        runs=[dict(cmd="damage", gen="small:24,recreate:16,batch:8,gc-heavy:6,big:3,aim-batch:8", policy="always_flush",
                    opts={"classes": "payload,crc", "cont": True},
                    opts_thorough={"classes": "payload,crc", "cont": True, "thorough": True}, thorough_factor=10)],
         rule="every frame of every image x {bit flip at first/middle/last payload byte, garbage payload, zero payload, "
